@@ -228,6 +228,9 @@ func toBitsList(bitDefintions []*meta.Bit, v interface{}) (val.BitsList, error) 
 }
 
 func toBitsValueHandler[V int | uint | int64 | float64](bitDefintions []*meta.Bit, v V) (val.Bits, error) {
+	if v < 0 || V(uint64(v)) != v {
+		return val.Bits{}, fmt.Errorf("could not coerce %v into bits", v)
+	}
 	return toBits(bitDefintions, uint64(v))
 }
 
@@ -236,11 +239,19 @@ func toBits(bitDefintions []*meta.Bit, v interface{}) (val.Bits, error) {
 	switch x := v.(type) {
 	case []string: // labels only
 		for _, strBit := range x {
+			if strBit == "" {
+				continue
+			}
+			found := false
 			for _, bitDef := range bitDefintions {
 				if strBit == bitDef.Ident() {
 					result.Labels = append(result.Labels, strBit)
 					result.Positions = result.Positions | (1 << bitDef.Position)
+					found = true
 				}
+			}
+			if !found {
+				return val.Bits{}, fmt.Errorf("bit '%s' is not defined", strBit)
 			}
 		}
 		return result, nil
@@ -250,6 +261,9 @@ func toBits(bitDefintions []*meta.Bit, v interface{}) (val.Bits, error) {
 				result.Positions = result.Positions | (1 << bitDef.Position)
 				result.Labels = append(result.Labels, bitDef.Ident())
 			}
+		}
+		if result.Positions != x {
+			return val.Bits{}, fmt.Errorf("bit positions %b contain undefined bits", x)
 		}
 		return result, nil
 	case string: // treat string as list of bit identifiers separated by space
